@@ -98,6 +98,15 @@ Fixpoint rq_add_scan (now : N) (cur : Z) (l : list elem) (i : Z) (cand front : o
 
 (* the deferred part of Add: drop bookkeeping, LREM of the victim, RPUSH of the newcomer.
    The read cursor only moves when the dropped in-flight entry is in front of it *)
+Definition cache_forget (d : elem) (cache : option (list (N * elem))) : option (list (N * elem)) :=
+  match cache with
+  | None => None
+  | Some c => match cache_get (e_id d) c with
+              | Some x => if elem_eqb x d then Some (cache_del (e_id d) c) else Some c
+              | None => Some c
+              end
+  end.
+
 Definition rq_add_finish (s : rstore) (q : rq) (e : elem) (victim : option elem) (r : dropreason) (back panic : bool) : rqres :=
   let cur' := if back then (rq_cur q - 1)%Z else rq_cur q in
   let pre := match r with DExpiredInflight => [EvInflight (-1)] | _ => [] end in
@@ -106,7 +115,9 @@ Definition rq_add_finish (s : rstore) (q : rq) (e : elem) (victim : option elem)
       done s (rq_upd q (rq_len q) cur' (rq_drained q) (rq_cache q))
            (if panic then RPanic else RAdd (pre ++ [EvDropped e r])) []
   | Some d =>
-      done s (rq_upd q (rq_len q) cur' (rq_drained q) (rq_cache q))
+      (* a sacrificed in-flight entry also leaves the read cache (when the cache holds its very bytes) *)
+      let cache' := match r with DExpiredInflight => cache_forget d (rq_cache q) | _ => rq_cache q end in
+      done s (rq_upd q (rq_len q) cur' (rq_drained q) cache')
            (if panic then RPanic else RAdd (pre ++ [EvDropped d r]))
            [CLRem (rq_key q) (BElem d); CRPush (rq_key q) (BElem e)]
   end.
@@ -144,8 +155,9 @@ Fixpoint find_id_z (pid : N) (l : list elem) (i : Z) : option Z :=
   end.
 
 Definition rq_replace (e : elem) (s : rstore) (q : rq) : rqres :=
-  let stop := if (rq_cur q - 1 <? 0)%Z then 0%Z else (rq_cur q - 1)%Z in
-  let l := elems_of (lrange (rq_key q) 0 stop s) in
+  if (rq_cur q <=? 0)%Z then done s q (RReplace false) []      (* nothing delivered in this connection yet *)
+  else
+  let l := elems_of (lrange (rq_key q) 0 (rq_cur q - 1)%Z s) in
   match find_id_z (e_id e) l 0 with
   | Some k =>
       match rq_cache q with
@@ -208,6 +220,7 @@ Definition rq_read (now : N) (pids : list N) (s : rstore) (q : rq) : rqres :=
   if negb (rq_drained q) then done s q RPanic []
   else if rq_closed q then done s q RClosedErr []
   else if (rq_len q <=? rq_cur q)%Z then done s q RBlocked []
+  else if (length pids =? 0)%nat then done s q (RRead [] [EvQueue 0; EvInflight 0]) []     (* no LRANGE cur cur-1 *)
   else
     let l := elems_of (lrange (rq_key q) (rq_cur q) (rq_cur q + Z.of_nat (length pids) - 1)%Z s) in
     let '(a, panicked) :=
